@@ -42,7 +42,7 @@ def random_lattice(rng, family=None, rotate=None, scale=1.0):
 
 def hopping_system(seed, n_frames=60, n_diff=3, n_sites=5, n_frame_atoms=2, family=None, rotate=None, labels=None,
                    diff_symbol='Li', frame_symbols=('O', 'P'), vib=0.12, hop_prob=0.15, int_shift=True,
-                   site_positions=None, time_step=1e-15, species_cls='Element', temperature=600.0, interleave=False):
+                   site_positions=None, time_step=1e-15, species_cls='Element', temperature=600.0, interleave=False, edge_transit=None):
     """Diffusing atoms hop between labelled sites with Gaussian vibration; framework atoms vibrate in place.
 
     Returns (trajectory, sites_structure, info)."""
@@ -88,6 +88,21 @@ def hopping_system(seed, n_frames=60, n_diff=3, n_sites=5, n_frame_atoms=2, fami
             coords[t, a] = site_positions[occ[a]] + (rng.normal(scale=vib, size=3) @ inv)
         for b in range(n_frame_atoms):
             coords[t, n_diff + b] = frame_home[b] + (rng.normal(scale=vib * 0.5, size=3) @ inv)
+    if edge_transit:
+        # the first diffusing atom starts the run between sites, the last one ends it between sites (k frames each, far from every site)
+        k0, k1 = edge_transit
+        rng_e = np.random.default_rng(seed + 99991)
+        far = None
+        for _ in range(4000):
+            p = rng_e.random(3)
+            if all(lat.get_all_distances(p, q)[0, 0] > 1.6 for q in site_positions):
+                far = p
+                break
+        if far is not None:
+            if k0:
+                coords[:k0, 0] = far + (rng_e.normal(scale=0.02, size=(k0, 3)) @ inv)
+            if k1:
+                coords[n_frames - k1:, n_diff - 1] = far + (rng_e.normal(scale=0.02, size=(k1, 3)) @ inv)
     if int_shift:
         coords = coords + rng.integers(-2, 3, size=coords.shape)
     if species_cls == 'SpeciesOx':
